@@ -34,8 +34,11 @@ POOL = [
     ('number', 'en-us', '0', None), ('number', 'en-us', '0.0', None), ('number', 'en-us', '-0', None), ('number', 'en-us', '0.0000001', None), ('number', 'en-us', '1e-7', None),
     ('number', 'en-us', '1', None), ('number', 'en-us', '1.0', None), ('number', 'en-us', 'one hundred', None), ('number', 'en-us', '100.00', None),
     ('temperature', 'en-us', '0 degrees celsius', None), ('temperature', 'en-us', '-0 degrees celsius', None), ('number', 'de-de', '0,0', None), ('number', 'de-de', '0', None),
+    # the same requests in another letter case (a memo keyed on the lower-cased query would confuse them)
+    ('boolean', 'en-us', 'YES PLEASE', None), ('boolean', 'en-us', 'Not OK', None), ('number', 'en-us', 'Twenty One', None), ('datetime', 'en-us', 'Tomorrow At 3PM', REF),
+    ('currency', 'en-us', '2 Dollars And 50 Cents', None), ('email', 'en-us', 'Mail A@B.com Now', None), ('datetime', 'fr-fr', 'Demain À 15H', REF),
 ]
-EQUAL_VALUES = {'0', '0.0', '-0', '0.0000001', '1e-7', '1', '1.0', 'one hundred', '100.00', '0 degrees celsius', '-0 degrees celsius', '0,0'}
+EQUAL_VALUES = {'YES PLEASE', 'yes please', 'Not OK', 'not ok', 'Twenty One', 'twenty one', 'Tomorrow At 3PM', 'tomorrow at 3pm', '0', '0.0', '-0', '0.0000001', '1e-7', '1', '1.0', 'one hundred', '100.00', '0 degrees celsius', '-0 degrees celsius', '0,0'}
 
 
 def calls():
